@@ -23,17 +23,18 @@ VARIABLE l
 (* Known findings: the exact deviant outcome each one predicts.             *)
 Known == {
   \* from_utf8(2-byte chunk).unwrap() on a cursor with multi-byte characters
-  [id |-> "S16a", outcome |-> "Panic", pcls |-> {"cursor_utf8"}],
+  [id |-> "S16a", outcomes |-> {"Panic"}, pcls |-> {"cursor_utf8"}],
   \* debug_assert on leaf identity when one term is scored under two leaves
-  [id |-> "S16b", outcome |-> "Panic", pcls |-> {"leaf_assert"}],
+  [id |-> "S16b", outcomes |-> {"Panic"}, pcls |-> {"leaf_assert"}],
   \* pipeline aggregation at the top level: unreachable!()
-  [id |-> "S16c", outcome |-> "Panic", pcls |-> {"pipeline_unreachable"}],
-  \* top_hits from/size near usize::MAX: `start + size` / with_capacity(limit)
-  [id |-> "S16d", outcome |-> "Panic", pcls |-> {"aggs_add_overflow", "capacity_overflow"}],
+  [id |-> "S16c", outcomes |-> {"Panic"}, pcls |-> {"pipeline_unreachable"}],
+  \* top_hits from/size from the request: `start + size`, with_capacity(size) (capacity overflow
+  \* panic near usize::MAX, failed allocation = process abort for sizes like 7e8)
+  [id |-> "S16d", outcomes |-> {"Panic", "Abort"}, pcls |-> {"aggs_add_overflow", "capacity_overflow", "-"}],
   \* moving_avg predict: vec![x; predict]
-  [id |-> "S16e", outcome |-> "Panic", pcls |-> {"capacity_overflow"}],
+  [id |-> "S16e", outcomes |-> {"Panic", "Abort"}, pcls |-> {"capacity_overflow", "-"}],
   \* histogram extended/hard bounds materialise every bucket, no cap
-  [id |-> "S16f", outcome |-> "Hang",  pcls |-> {"-"}] }
+  [id |-> "S16f", outcomes |-> {"Hang", "Abort"}, pcls |-> {"-"}] }
 
 Free(e) == e.cls.aggs = "free"
 ClassMatch(k, e) ==
@@ -42,10 +43,15 @@ ClassMatch(k, e) ==
     [] k.id = "S16c" -> e.cls.aggs = "pipeline_no_parent" \/ (Free(e) /\ e.feat.pipeline_agg)
     [] k.id = "S16d" -> e.cls.aggs = "top_hits_huge" \/ (Free(e) /\ e.feat.top_hits)
     [] k.id = "S16e" -> e.cls.aggs = "moving_avg_predict_huge" \/ (Free(e) /\ e.feat.moving_avg)
-    [] k.id = "S16f" -> e.cls.aggs = "histogram_bounds_wide" \/ (Free(e) /\ e.feat.hist_bounds)
+    [] k.id = "S16f" -> e.cls.aggs \in {"histogram_bounds_wide", "date_histogram_zero_interval"}
+                        \/ (Free(e) /\ e.feat.hist_bounds)
     [] OTHER -> FALSE
 
-Explains(k, e) == e.outcome = k.outcome /\ e.pcls \in k.pcls /\ ClassMatch(k, e)
+Explains(k, e) ==
+  /\ e.outcome \in k.outcomes
+  /\ e.pcls \in k.pcls
+  /\ (e.pcls = "-") = (e.outcome # "Panic")       \* only a panic carries a panic class
+  /\ ClassMatch(k, e)
 
 Base(kind, e) ==
   [kind |-> kind, property |-> "C16", line |-> l, i |-> e.i, src |-> e.src, idx |-> e.idx,
